@@ -86,17 +86,18 @@ harness!(chunker_next_two, 7, {
     assert!(pos <= total);
 });
 
-// @harness props=C41 tier=quick timeout=900 desc="StrictBatchSizeStream::poll_next, first three polls over <=3 input batches: every output has exactly batch_size rows except a final shorter one, outputs are the input rows in order, none empty"
-harness!(strict_batch_three_polls, 7, {
-    let (inner, total) = SendableRecordBatchStream::verif_any();
+fn strict_case(pendings_allowed: u8, rounds: usize) {
+    let (mut inner, total) = SendableRecordBatchStream::verif_any();
+    inner.pendings_left = pendings_allowed;
     let size = vnd::any::<u16>() as usize;
     vnd::assume(size >= 1);
     let mut s = StrictBatchSizeStream { inner, batch_size: size, residual: None };
     let mut pos = 0u64;
     let mut done = false;
     let mut outs = 0;
+    let mut pendings = 0;
     let mut round = 0;
-    while round < 3 {
+    while round < rounds {
         if !done {
             match s.poll_next_sync() {
                 Poll::Ready(Some(Ok(b))) => {
@@ -110,11 +111,21 @@ harness!(strict_batch_three_polls, 7, {
                     assert!(pos == total);
                     done = true;
                 }
-                Poll::Pending => assert!(false),
+                Poll::Pending => pendings += 1,
             }
         }
         round += 1;
     }
-    vnd::cover!(outs == 3 && !done, "three full batches and more to come");
+    vnd::cover!(outs >= 1 && pendings == pendings_allowed as usize, "an output after the allowed number of Pendings");
     assert!(pos <= total);
+}
+
+// @harness props=C41 tier=quick timeout=900 desc="StrictBatchSizeStream::poll_next, four polls over <=3 input batches with the inner stream answering Pending at one arbitrary moment: every output has exactly batch_size rows except a final shorter one, outputs are the input rows in order, none empty, nothing is lost across a Pending"
+harness!(strict_batch_polls_with_pending, 6, {
+    strict_case(1, 4);
+});
+
+// @harness props=C41 tier=thorough timeout=3000 desc="same with five polls and up to two Pendings"
+harness!(strict_batch_polls_two_pendings, 7, {
+    strict_case(2, 5);
 });
